@@ -533,6 +533,9 @@ def rule_e(rep: Report) -> None:
 			return None
 		return walk(zero.body)
 
+	from vlib.match import atoms
+	before = f.node.body[:f.node.body.index(loop)]
+	early = [x for st in before for x in ast.walk(st) if isinstance(x, ast.Return) and x.value is not None]
 	for member, sym in members.items():
 		if member == 'NoRepeat' or sym is None:
 			continue
@@ -548,6 +551,30 @@ def rule_e(rep: Report) -> None:
 			r.skip(f'{member}', f.where, f'cannot evaluate the bounds of {member}')
 			continue
 		got = (mn[0], mx, mn[1])
+		# an exit in front of the loop (`if <nothing left>: return ...`) is a zero-match exit too: what it returns for this member must be what the
+		# zero-match dispatch returns — `[x]` without its placeholder shifts every later child of the tree by one
+		for ret in early:
+			reach = True
+			for a_, pol_ in atoms(f.node, ret):
+				t_ = ev(a_, member)
+				if t_ is not None and t_ != pol_:
+					reach = False
+			if not reach:
+				continue
+			val = ret.value
+			hops = 0
+			while isinstance(val, ast.IfExp) and hops < 4:
+				t_ = ev(val.test, member)
+				if t_ is None:
+					break
+				val = val.body if t_ else val.orelse
+				hops += 1
+			if val is None or isinstance(val, ast.IfExp):
+				r.skip(f'{member}:early-exit', (SYNTAX_PY, ret.lineno), f'cannot evaluate the early exit `{unparse(ret)[:80]}` for {member}')
+				continue
+			src_ = unparse(val)
+			ev_got = (0, 'empty()' in src_) if 'Step.ok' in src_ else (1, False)
+			r.check(ev_got == (exp[0], exp[2]), f'{member} ({sym}):early-exit', (SYNTAX_PY, ret.lineno), f'_match_repeat leaves in front of the loop with `{src_[:70]}` for repeat kind {member} (`{sym}`{" / [ ]" if member == opt_member else ""}): min {ev_got[0]}, empty placeholder {ev_got[1]}, while no match means min {exp[0]}, placeholder {exp[2]} for this kind — an omitted `[x]` at the very start of the text loses its `__empty__` child and every later child of that tree moves up by one', unparse(ret)[:160])
 		r.check(got == exp, f'{member} ({sym})', f.where, f'repeat kind {member} (`{sym}`{" / [ ]" if member == opt_member else ""}) accepts min {got[0]}, max {got[1]} repetitions (empty placeholder: {got[2]}); the meta-grammar means min {exp[0]}, max {exp[1]} (placeholder: {exp[2]}): text that repeats an optional group (e.g. `f(a b)`) would be accepted', unparse(loop)[:160])
 
 
